@@ -72,6 +72,7 @@ func (w *Queue) Enqueue(workToDo Work, options ...workOption) uuid.UUID {
 		QueuedWork: &QueuedWork{
 			id:       uuid.New(),
 			priority: 1,
+			position: -1,
 			state:    &atomic.Int32{},
 		},
 
@@ -96,6 +97,9 @@ func (w *Queue) Dequeue(id uuid.UUID) error {
 	if i, ok := w.workItems.Load(id); ok {
 		wi := i.(*workItem)
 		if wi.state.Load() == int32(IN_QUEUE) {
+			if wi.position < 0 {
+				return fmt.Errorf("cannot delete work item %v because it is not waiting in the queue", id.String())
+			}
 			w.workQueue.Remove(wi.position)
 			w.workQueue.AdjustPriorities()
 			w.workItems.Delete(wi.id)
@@ -112,6 +116,9 @@ func (w *Queue) SetPriority(id uuid.UUID, priority int) error {
 		wi := i.(*workItem)
 		if wi.state.Load() == int32(IN_QUEUE) {
 			wi.priority = priority
+			if wi.position >= 0 {
+				heap.Fix(w.workQueue, wi.position)
+			}
 			w.workQueue.AdjustPriorities()
 		} else if wi.state.Load() == int32(IN_PROGRESS) {
 			return fmt.Errorf("cannot adjust prioroty on work item %v because it is in process", id.String())
